@@ -244,9 +244,9 @@ func c09Pipe(x *engine.Ctx, c *c09Case) {
 
 func init() {
 	register(&engine.Check{
-		ID:    "C09",
-		Level: "model_checking",
-		Rule: "every profile = (attribute list of length 0..4 over {CN,O,C,1.2.3.4} x optional flag) x allowOther, plus the absent list (9363 profiles) x every subject of length 1..5 over {CN,O,C,1.2.3.4,L} (3905): config.Validate on the real parsed RDN sequence vs. the reference predicate transcribed from the statement; plus 7 profiles x 9 subjects x 3 positions of the constrained entity in a root->mid->leaf chain through the whole file pipeline (rejected => planning error, empty write log). Pairs are distinct by construction; states = profiles, transitions = Validate calls / runs",
+		ID:          "C09",
+		Level:       "model_checking",
+		Rule:        "every profile = (attribute list of length 0..4 over {CN,O,C,1.2.3.4} x optional flag) x allowOther, plus the absent list (9363 profiles) x every subject of length 1..5 over {CN,O,C,1.2.3.4,L} (3905): config.Validate on the real parsed RDN sequence vs. the reference predicate transcribed from the statement; plus 7 profiles x 9 subjects x 3 positions of the constrained entity in a root->mid->leaf chain through the whole file pipeline (rejected => planning error, empty write log). Pairs are distinct by construction; states = profiles, transitions = Validate calls / runs",
 		Bound:       map[string]string{"profile length": "<=4", "subject length": "<=5", "alphabet": "3 short names + 1 custom OID + 1 foreign attribute"},
 		Assumptions: []string{"profile attributes that the schema allows but no table resolves (PC, DC, T, UID, MAIL) are outside the statement"},
 		Budget:      budgets(quickBudget, thoroughBudget),
